@@ -13,6 +13,7 @@ import (
 	"os"
 	"path/filepath"
 	"regexp"
+	"sort"
 	"strings"
 )
 
@@ -344,6 +345,40 @@ func spaces() []space {
 					}
 					for _, p := range sortedProfiles() {
 						emit(&Case{Space: "dc-links", Desc: "sample " + smp.Name, Profile: p, Status: 200, Conf: "dc", Body: smp.Data})
+					}
+				}
+			}},
+		{Name: "declared-vs-sniffed",
+			About: "a body whose bytes are not what the Content-Type header (or the item URL) declares: 9 binary / empty bodies (PNG, GIF, JPEG, gzip, zip, WebAssembly, NUL bytes, 3 KB of high bytes, nothing) and every valid sample x every profile x the configurations {default, --domains-crawl, --disable-assets-capture}",
+			Gen: func(th bool, emit func(*Case)) {
+				bin := map[string][]byte{
+					"png":   append([]byte("\x89PNG\r\n\x1a\n\x00\x00\x00\rIHDR\x00\x00\x00\x01\x00\x00\x00\x01\x08\x06\x00\x00\x00\x1f\x15\xc4\x89"), bytes.Repeat([]byte{0}, 64)...),
+					"gif":   []byte("GIF89a\x01\x00\x01\x00\x80\x00\x00\xff\xff\xff\x00\x00\x00!\xf9\x04\x01\x00\x00\x00\x00,\x00\x00\x00\x00\x01\x00\x01\x00\x00\x02\x02D\x01\x00;"),
+					"jpeg":  append([]byte("\xff\xd8\xff\xe0\x00\x10JFIF\x00\x01\x01\x00\x00\x01\x00\x01\x00\x00"), bytes.Repeat([]byte{0xff}, 32)...),
+					"gzip":  []byte("\x1f\x8b\x08\x00\x00\x00\x00\x00\x00\x03\xcbH\xcd\xc9\xc9\x07\x00\x86\xa6\x106\x05\x00\x00\x00"),
+					"zip":   []byte("PK\x03\x04\x14\x00\x00\x00\x08\x00\x00\x00!\x00"),
+					"wasm":  []byte("\x00asm\x01\x00\x00\x00"),
+					"nul":   bytes.Repeat([]byte{0}, 100),
+					"high":  bytes.Repeat([]byte{0xfe, 0x01, 0x80}, 1024),
+					"empty": nil,
+				}
+				var names []string
+				for n := range bin {
+					names = append(names, n)
+				}
+				sort.Strings(names)
+				for _, conf := range []string{"", "dc", "dac"} {
+					for _, p := range sortedProfiles() {
+						for _, n := range names {
+							emit(&Case{Space: "declared-vs-sniffed", Desc: n + " bytes", Profile: p, Status: 200, Conf: conf, Body: bin[n]})
+						}
+						if conf == "dac" {
+							for _, smp := range samples() {
+								if !smp.Big {
+									emit(&Case{Space: "declared-vs-sniffed", Desc: "sample " + smp.Name, Profile: p, Status: 200, Conf: conf, Body: smp.Data})
+								}
+							}
+						}
 					}
 				}
 			}},
